@@ -19,14 +19,16 @@ Inductive rout : Type :=
 Inductive hev : Type :=
 | HRead (rs : list rout)            (* one getter; per endpoint what it answers *)
 | HWrite (os : list outcome)        (* one state-changing call; per endpoint what it would answer *)
-| HBatch (k : nat).                 (* k state-changing calls queued at the same moment, every endpoint accepting *)
+| HBatch (k : nat)                  (* k state-changing calls queued at the same moment, every endpoint accepting *)
+| HReconnect.                       (* DisconnectAll, then Connect: fresh contexts for every endpoint, one request loop *)
 
 Record hst : Type := mkh { h_alive : list bool; h_nonce : Z }.
 
 Inductive hout : Type :=
 | OutRead (served : bool)
 | OutWrite (sent_to : list nat) (res : option outcome) (nonce : option Z)   (* nonce of the accepted transaction *)
-| OutBatch (nonces : list Z).
+| OutBatch (nonces : list Z)
+| OutReconnect.
 
 Fixpoint kill (dead : list nat) (i : nat) (alive : list bool) : list bool :=
   match alive with
@@ -66,6 +68,7 @@ Definition hstep (s : hst) (e : hev) : hst * hout :=
   | HRead rs => (mkh (kill (closed_at 0 (h_alive s) rs) 0 (h_alive s)) (h_nonce s), OutRead (served_by (h_alive s) rs))
   | HWrite os => write1 s os
   | HBatch k => let '(s', ns) := batch k s in (s', OutBatch ns)
+  | HReconnect => (mkh (map (fun _ => true) (h_alive s)) (h_nonce s), OutReconnect)
   end.
 
 Fixpoint hrun (s : hst) (es : list hev) : hst * list hout :=
@@ -85,6 +88,7 @@ Definition dec_hev (v : val) : hev :=
   | VL [VZ 0; VL rs] => HRead (map (fun r => match r with VZ z => rout_of z | _ => ROtherErr end) rs)
   | VL [VZ 1; VL os] => HWrite (map (fun o => match o with VZ z => outcome_of z | _ => OOther end) os)
   | VL [VZ 2; VZ k] => HBatch (Z.to_nat k)
+  | VL [VZ 3] => HReconnect
   | _ => HBatch 0
   end.
 
@@ -95,6 +99,7 @@ Definition enc_hout (o : hout) : val :=
       VL [VZ 1; natl st; match r with Some x => VZ (outcome_z x) | None => VNone end;
           match n with Some z => VZ z | None => VNone end]
   | OutBatch ns => VL [VZ 2; VL (map VZ ns)]
+  | OutReconnect => VL [VZ 3]
   end.
 
 Definition entry_adaptor (op : Z) (args : list val) : val :=
